@@ -124,8 +124,12 @@ def r3_rel(ck, F):
         okc = False
         if cl:
             ents = calls(cl[0], A("block_entry_at"))
-            somes = [x for x in flat_alts(cl[0].expr_at_return()) if x.k == "agg" and x.x.get("variant") == "Some"]
-            okc = len(ents) == 1 and len(somes) == 1
+            alts_ = flat_alts(cl[0].expr_at_return())
+            somes = [x for x in alts_ if x.k == "agg" and x.x.get("variant") == "Some"]
+            # every alternative of the extractor's result is None (also `?` on an Option) or that one Some(key)
+            rest = [x for x in alts_ if not any(x is y for y in somes) and not (x.k == "agg" and x.x.get("variant") == "None")
+                    and not (x.k == "call" and x.x["path"].endswith("::from_residual") and "option::Option" in x.x["path"])]
+            okc = len(ents) == 1 and len(somes) == 1 and not rest
             oki = False
             if okc:
                 kx = somes[0].a[0].strip()
